@@ -79,7 +79,14 @@ fn trace_cfg(r: &mut Rng, views: &[(IpAddr, IpAddr, u16, u16)]) -> Cfg {
         }
         for _ in 0..1 + r.below(3) {
             let v = pickv(r);
-            f.addrs.push(if r.chance(1, 2) { v.0 } else { v.1 });
+            let a = if r.chance(1, 2) { v.0 } else { v.1 };
+            f.addrs.push(a);
+            if let IpAddr::V6(x) = a {
+                if let Some(m) = x.to_ipv4_mapped() {
+                    // a rule for the embedded IPv4 address must not cover the IPv6 endpoint
+                    f.addrs.push(IpAddr::V4(m));
+                }
+            }
         }
         c.addr = Some(f);
     }
@@ -91,7 +98,12 @@ fn trace_cfg(r: &mut Rng, views: &[(IpAddr, IpAddr, u16, u16)]) -> Cfg {
             _ => {}
         }
         let v = pickv(r);
-        let a = if r.chance(1, 2) { v.0 } else { v.1 };
+        let mut a = if r.chance(1, 2) { v.0 } else { v.1 };
+        if let IpAddr::V6(x) = a {
+            if let (Some(m), true) = (x.to_ipv4_mapped(), r.chance(1, 2)) {
+                a = IpAddr::V4(m);
+            }
+        }
         let p = match a {
             IpAddr::V4(_) => *r.pick(&[0u8, 8, 16, 24, 31, 32]),
             IpAddr::V6(_) => *r.pick(&[0u8, 32, 48, 64, 127, 128]),
@@ -113,20 +125,28 @@ fn odd_frames(r: &mut Rng, n: usize) -> Vec<Vec<u8>> {
         if r.chance(1, 2) {
             o.extend(pkt::opt_ts(r.u32(), 0));
         }
+        // payloads that make a single frame produce a result: a SYN (TCP), a one-segment
+        // ClientHello (TLS)
+        let hello = r.chance(1, 3);
         let tcp = Tcp {
             sport: sp,
             dport: dp,
-            flags: *r.pick(&[flags::SYN, flags::SYN | flags::ACK, flags::ACK | flags::PSH]),
+            flags: if hello { flags::ACK | flags::PSH } else { *r.pick(&[flags::SYN, flags::SYN, flags::SYN | flags::ACK, flags::ACK | flags::PSH]) },
             ack: 1,
             options: o,
-            payload: if r.chance(1, 3) { scenario::http1_request(r, 1) } else { vec![] },
+            payload: if hello { scenario::client_hello(r, 7, 0) } else if r.chance(1, 4) { scenario::http1_request(r, 1) } else { vec![] },
             seq: r.u32(),
             ..Default::default()
         };
         let v4 = r.chance(3, 4);
         let ip = if v4 {
             let mut h = V4 { src: [10, 0, r.u8() % 3, 1 + r.u8() % 3].into(), dst: [192, 168, 1, 1 + r.u8() % 3].into(), ..Default::default() };
-            match r.below(4) {
+            match r.below(6) {
+                4 => {
+                    // fragment fields set on a packet that still carries the whole TCP segment
+                    h.frag_off = *r.pick(&[1u16, 185, 0x1fff]);
+                }
+                5 => h.flags |= 0b001,
                 0 => h.ihl = Some(r.u8() % 16),
                 1 => {
                     let n = r.usize(11) * 4;
@@ -140,7 +160,13 @@ fn odd_frames(r: &mut Rng, n: usize) -> Vec<Vec<u8>> {
             }
             Ip::V4(h)
         } else {
-            Ip::V6(V6 { src: format!("2001:db8::{:x}", 1 + r.below(3)).parse().unwrap(), dst: "2001:db8:1::1".parse().unwrap(), next: if r.chance(1, 10) { 17 } else { 6 }, ..Default::default() })
+            let (src, dst): (std::net::Ipv6Addr, std::net::Ipv6Addr) = if r.chance(1, 3) {
+                // IPv4-mapped and IPv4-compatible addresses: the analyzer reports them as IPv6
+                (format!("::ffff:10.0.{}.{}", r.below(3), 1 + r.below(3)).parse().unwrap(), format!("::ffff:192.168.1.{}", 1 + r.below(3)).parse().unwrap())
+            } else {
+                (format!("2001:db8::{:x}", 1 + r.below(3)).parse().unwrap(), "2001:db8:1::1".parse().unwrap())
+            };
+            Ip::V6(V6 { src, dst, next: if r.chance(1, 10) { 17 } else { 6 }, ..Default::default() })
         };
         let link = match r.below(6) {
             0 | 1 | 2 => Link::Ethernet,
